@@ -502,10 +502,16 @@ impl<'tcx, 'a> Cx<'tcx, 'a> {
         let mut finder = ArgFinder { want: &info.arg_spans, found: vec![None; info.arg_spans.len()] };
         rustc_hir::intravisit::Visitor::visit_expr(&mut finder, e);
         let mut args = Vec::new();
-        for f in finder.found.iter() {
+        for (i, f) in finder.found.iter().enumerate() {
             match f {
                 Some(x) => args.push(self.expr(x, tr, owner)),
-                None => args.push(J::obj().with("k", J::s("Unknown"))),
+                None => match info.arg_lits.get(i).and_then(|x| x.clone()) {
+                    // an integer / bool literal the lowering inlined: kept as its source text
+                    Some(text) => args.push(
+                        J::obj().with("k", J::s("Lit")).with("lit", J::obj().with("t", J::s("fmtlit")).with("v", J::s(text))).with("id", J::Int(-1)),
+                    ),
+                    None => args.push(J::obj().with("k", J::s("Unknown"))),
+                },
             }
         }
         let pieces = info
